@@ -6,7 +6,7 @@ deselected."""
 import json, os, shutil, subprocess, sys, tempfile, time
 
 PY = "/venv/bin/python"
-for d in sys.argv[1:]:
+for d in [a for a in sys.argv[1:] if not a.startswith("--")]:
     d = os.path.abspath(d)
     mp = os.path.join(d, "meta.json")
     meta = json.load(open(mp))
